@@ -153,6 +153,7 @@ def _conv(prop, base):
         if prop == "C03":
             copyopt_checks.copyopt_battery(v, prop, 60 * SIZES[tier])
             overrides_checks.overrides_battery(v, 32)
+            overrides_checks.omit_default_encoding_battery(v)
         if prop == "C06":
             tpl_checks.key_modes_classes(v, v.coverage.setdefault("key_modes", {}))
             copyopt_checks.copy_engine_battery(v, "C06")
